@@ -30,14 +30,16 @@ structure Point where
   alts : List Alt    -- the exit alternatives of that select
   deriving Repr, DecidableEq
 
-/-- The blocking points of the (repaired) source, in source order per function.  Reviewed by
+/-- The blocking points of the (repaired) source, in source order per function.  Channel texts
+    are name-free: a channel made in the function is `made#k`, a local defined once is its
+    defining expression, any other local is `local`; parameters and receivers keep their names.  Reviewed by
     hand against tor/tor.go, tor/reader.go, tor/writer.go, peer/peer.go. -/
 def expectedBlocking : List Point := [
-  ⟨"tor.Announce", .send, "t.Event", true, [.tDone]⟩,
+  ⟨"tor.Announce", .send, "Get(h).Event", true, [.tDone]⟩,
   ⟨"tor.Torrent.run", .recv, "t.Event", true, [.ctxDone]⟩,
-  ⟨"tor.Torrent.run", .recv, "requestChan", true, [.ctxDone]⟩,
-  ⟨"tor.Torrent.run", .recv, "ticker.C", true, [.ctxDone]⟩,
-  ⟨"tor.Torrent.run", .recv, "slowTicker.C", true, [.ctxDone]⟩,
+  ⟨"tor.Torrent.run", .recv, "t.requestTicker.C", true, [.ctxDone]⟩,
+  ⟨"tor.Torrent.run", .recv, "time.NewTicker(5*time.Second + jiffy()).C", true, [.ctxDone]⟩,
+  ⟨"tor.Torrent.run", .recv, "time.NewTicker(20*time.Second + jiffy()).C", true, [.ctxDone]⟩,
   ⟨"tor.handleEvent", .send, "c.Ch", false, []⟩,
   ⟨"tor.handleEvent", .send, "c.Ch", false, []⟩,
   ⟨"tor.handleEvent", .send, "c.Ch", false, []⟩,
@@ -56,35 +58,35 @@ def expectedBlocking : List Point := [
   ⟨"tor.Torrent.AddKnown", .send, "t.Event", true, [.tDone]⟩,
   ⟨"tor.Torrent.BadPeer", .send, "t.Event", true, [.tDone]⟩,
   ⟨"tor.Torrent.GetStats", .send, "t.Event", true, [.tDone]⟩,
-  ⟨"tor.Torrent.GetStats", .recv, "ch", true, [.tDone]⟩,
+  ⟨"tor.Torrent.GetStats", .recv, "made#1", true, [.tDone]⟩,
   ⟨"tor.Torrent.GetAvailable", .send, "t.Event", true, [.tDone]⟩,
-  ⟨"tor.Torrent.GetAvailable", .recv, "ch", true, [.tDone]⟩,
+  ⟨"tor.Torrent.GetAvailable", .recv, "made#1", true, [.tDone]⟩,
   ⟨"tor.Torrent.DropPeer", .send, "t.Event", true, [.tDone]⟩,
-  ⟨"tor.Torrent.DropPeer", .recv, "ch", true, [.tDone]⟩,
+  ⟨"tor.Torrent.DropPeer", .recv, "made#1", true, [.tDone]⟩,
   ⟨"tor.Torrent.GetPeer", .send, "t.Event", true, [.tDone]⟩,
-  ⟨"tor.Torrent.GetPeer", .recv, "ch", true, [.tDone]⟩,
+  ⟨"tor.Torrent.GetPeer", .recv, "made#1", true, [.tDone]⟩,
   ⟨"tor.Torrent.GetPeers", .send, "t.Event", true, [.tDone]⟩,
-  ⟨"tor.Torrent.GetPeers", .recv, "ch", true, [.tDone]⟩,
+  ⟨"tor.Torrent.GetPeers", .recv, "made#1", true, [.tDone]⟩,
   ⟨"tor.Torrent.GetKnown", .send, "t.Event", true, [.tDone]⟩,
-  ⟨"tor.Torrent.GetKnown", .recv, "ch", true, [.tDone]⟩,
+  ⟨"tor.Torrent.GetKnown", .recv, "made#1", true, [.tDone]⟩,
   ⟨"tor.Torrent.GetKnowns", .send, "t.Event", true, [.tDone]⟩,
-  ⟨"tor.Torrent.GetKnowns", .recv, "ch", true, [.tDone]⟩,
+  ⟨"tor.Torrent.GetKnowns", .recv, "made#1", true, [.tDone]⟩,
   ⟨"tor.Torrent.Have", .send, "t.Event", true, [.tDone]⟩,
   ⟨"tor.Torrent.GetConf", .send, "t.Event", true, [.tDone]⟩,
-  ⟨"tor.Torrent.GetConf", .recv, "ch", true, [.tDone]⟩,
+  ⟨"tor.Torrent.GetConf", .recv, "made#1", true, [.tDone]⟩,
   ⟨"tor.Torrent.SetConf", .send, "t.Event", true, [.tDone]⟩,
-  ⟨"tor.Torrent.SetConf", .recv, "ch", true, [.tDone]⟩,
+  ⟨"tor.Torrent.SetConf", .recv, "made#1", true, [.tDone]⟩,
   ⟨"tor.Torrent.Request", .send, "t.Event", true, [.tDone]⟩,
-  ⟨"tor.Torrent.Request", .recv, "ch", true, [.tDone]⟩,
+  ⟨"tor.Torrent.Request", .recv, "made#1", true, [.tDone]⟩,
   ⟨"tor.trackerAnnounceSingle", .send, "t.Event", true, [.tDone, .ctxDone]⟩,
-  ⟨"tor.Reader.Read", .recv, "done", true, [.tDone, .ctxDone]⟩,
+  ⟨"tor.Reader.Read", .recv, "local", true, [.tDone, .ctxDone]⟩,
   ⟨"tor.writer.writeEvent", .send, "w.t.Event", true, [.tDone]⟩,
   ⟨"peer.Run", .send, "peer.torEvent", true, [.tDone]⟩,
   ⟨"peer.Run", .recv, "peer.Event", true, [.writerDone, .tDone]⟩,
-  ⟨"peer.Run", .recv, "reader", true, [.writerDone, .tDone]⟩,
-  ⟨"peer.Run", .send, "torEvent", true, [.writerDone, .tDone]⟩,
-  ⟨"peer.Run", .recv, "upload", true, [.writerDone, .tDone]⟩,
-  ⟨"peer.Run", .recv, "ticker.C", true, [.writerDone, .tDone]⟩,
+  ⟨"peer.Run", .recv, "made#1", true, [.writerDone, .tDone]⟩,
+  ⟨"peer.Run", .send, "peer.torEvent", true, [.writerDone, .tDone]⟩,
+  ⟨"peer.Run", .recv, "peer.uploadTicker.C", true, [.writerDone, .tDone]⟩,
+  ⟨"peer.Run", .recv, "time.NewTicker(2 * time.Second).C", true, [.writerDone, .tDone]⟩,
   ⟨"peer.writeEvent", .send, "peer.torEvent", true, [.dflt]⟩,
   ⟨"peer.handleEvent", .send, "c.Ch", false, []⟩,
   ⟨"peer.handleEvent", .send, "c.Ch", false, []⟩,
@@ -94,17 +96,17 @@ def expectedBlocking : List Point := [
   ⟨"peer.handleEvent", .send, "c.Ch", false, []⟩,
   ⟨"peer.handleEvent", .send, "c.Ch", false, []⟩,
   ⟨"peer.Peer.GetStatus", .send, "peer.Event", true, [.pDone]⟩,
-  ⟨"peer.Peer.GetStatus", .recv, "ch", true, [.pDone]⟩,
+  ⟨"peer.Peer.GetStatus", .recv, "made#1", true, [.pDone]⟩,
   ⟨"peer.Peer.GetPex", .send, "peer.Event", true, [.pDone]⟩,
-  ⟨"peer.Peer.GetPex", .recv, "ch", true, [.pDone]⟩,
+  ⟨"peer.Peer.GetPex", .recv, "made#1", true, [.pDone]⟩,
   ⟨"peer.Peer.GetStats", .send, "peer.Event", true, [.pDone]⟩,
-  ⟨"peer.Peer.GetStats", .recv, "ch", true, [.pDone]⟩,
+  ⟨"peer.Peer.GetStats", .recv, "made#1", true, [.pDone]⟩,
   ⟨"peer.Peer.GetFast", .send, "peer.Event", true, [.dflt]⟩,
-  ⟨"peer.Peer.GetFast", .recv, "ch", true, [.pDone]⟩,
+  ⟨"peer.Peer.GetFast", .recv, "made#1", true, [.pDone]⟩,
   ⟨"peer.Peer.GetBitmap", .send, "peer.Event", true, [.pDone]⟩,
-  ⟨"peer.Peer.GetBitmap", .recv, "ch", true, [.pDone]⟩,
+  ⟨"peer.Peer.GetBitmap", .recv, "made#1", true, [.pDone]⟩,
   ⟨"peer.Peer.GetHave", .send, "peer.Event", true, [.pDone]⟩,
-  ⟨"peer.Peer.GetHave", .recv, "ch", true, [.pDone]⟩ ]
+  ⟨"peer.Peer.GetHave", .recv, "made#1", true, [.pDone]⟩ ]
 
 /-- statements executed once the event loop returns (run's defer, then the defer of the
     goroutine started by AddTorrent) -/
